@@ -325,7 +325,7 @@ impl Prop for C09 {
         Ok(())
     }
     fn rule(&self) -> String {
-        "generated (|lat| in [46,64] of either sign, GMT within 2 h, 6 angle methods, both nearest-good-day variants, year 1600-2399, day of year weighted to the local summer and to the first/last 15 days of the year, by construction) plus a sweep of fixed sites x every day of whole years (quick: 8 sites x 2024; thorough: 40 sites x 2023-2026). The oracle is an independent outward search through the public API with no policy. Non-trivial = Fajr or Isha does not exist on the requested date; distinct by hash of the case".into()
+        "generated (|lat| in [46,64] of either sign, GMT within 2 h, 6 angle methods, both nearest-good-day variants, year 1600-2399, day of year weighted to the local summer and to the first/last 15 days of the year, by construction) plus a sweep of fixed sites x every day of whole years (quick: 8 sites x 2024; thorough: 40 sites x 2023-2026). The oracle is an independent outward search through the public API with no policy. One generated case in 16 is boundary-directed (latitude bisected to where the closest good day just stops being good; GMT offset a multiple of 3 h there); every case is preceded by a priming call with a sibling input. Non-trivial = Fajr or Isha does not exist on the requested date; distinct by hash of the case".into()
     }
     fn assumptions(&self) -> Vec<String> {
         vec![
